@@ -102,6 +102,31 @@ func init() {
 						}
 					}
 				}
+				// combinations of the grammar's optional parts (epoch, pre / post, revision, build) on
+				// one release shape: bounds that lack a part against candidates that carry it
+				if ph := phaseTemplates(eco, "quick"); len(ph) > 0 {
+					np, nrr := 4, 4
+					if tier == "thorough" {
+						np, nrr = 6, 10
+					}
+					pt := thin(ph, np)
+					var conj []string
+					for _, r := range rs {
+						if isConjunctive(r) && !(eco == "pypi" && len(r) >= 3 && r[:3] == "===") {
+							conj = append(conj, r)
+						}
+					}
+					for _, r := range thin(conj, nrr) {
+						for _, a := range pt {
+							for _, b := range pt {
+								out = append(out, &Config{ID: fmt.Sprintf("C20/cong/%s/%s/parts/%s|%s", eco, r, a, b), Pkg: zzhPkg, Func: "C20Cong", Args: []ArgSpec{ArgStr(eco), ArgTmpl(r), ArgTmpl(a), ArgTmpl(b)}})
+								for _, c := range pt {
+									out = append(out, &Config{ID: fmt.Sprintf("C20/convex/%s/%s/parts/%s|%s|%s", eco, r, a, b, c), Pkg: zzhPkg, Func: "C20Convex", Args: []ArgSpec{ArgStr(eco), ArgTmpl(r), ArgTmpl(a), ArgTmpl(b), ArgTmpl(c)}})
+								}
+							}
+						}
+					}
+				}
 				for _, r := range rs {
 					if eco == "pypi" && len(r) >= 3 && r[:3] == "===" {
 						continue
@@ -126,7 +151,7 @@ func init() {
 			return out
 		},
 		Bounds: func(tier string) string {
-			return "ranges: comparator forms per DESIGN B.1 plus shorthand constructs per B.4 (thinned to 12 quick / 40 thorough per ecosystem); versions: 5 (12) grammar templates for pairs, 3 (7) for triples; pypi '===' excluded; per ecosystem one free-run version template (two characters over the version alphabet) against the must-have spellings on 6 (16) ranges; one comparator range per operator whose bound and candidates carry build metadata / a pypi local label; alpm pairs differing in pkgrel presence excluded"
+			return "ranges: comparator forms per DESIGN B.1 plus shorthand constructs per B.4 (thinned to 12 quick / 40 thorough per ecosystem); versions: 5 (12) grammar templates for pairs, 3 (7) for triples; pypi '===' excluded; per ecosystem one free-run version template (two characters over the version alphabet) against the must-have spellings on 6 (16) ranges; one comparator range per operator whose bound and candidates carry build metadata / a pypi local label; alpm pairs differing in pkgrel presence excluded; part-combination templates (phaseTemplates, thinned to 4 (6)) as pairs and triples on 4 (10) conjunctive ranges per ecosystem"
 		},
 	})
 }
